@@ -258,6 +258,15 @@ func (u *Universe) GenOp(rng *rand.Rand, m *Model, o GenOpts) *Op {
 			}
 			return op
 		case k < 22:
+			if r := m.Repos[repo]; r != nil && len(r.Manifests) > 0 && rng.IntN(12) == 0 {
+				// the same bytes again under another media type (untagged or under some tag)
+				d := pick(rng, sortedKeys(r.Manifests))
+				op := &Op{Kind: "PushManifest", Repo: repo, Data: r.Manifests[d].Data, MediaType: pick(rng, []string{"application/x-retyped", MTImage, MTIndex})}
+				if rng.IntN(2) == 0 {
+					op.Tag = u.tag(rng, o)
+				}
+				return op
+			}
 			mt := u.NewManifest(rng, m, repo)
 			op := &Op{Kind: "PushManifest", Repo: repo, Data: mt.Data, MediaType: mt.MediaType}
 			if rng.IntN(3) > 0 {
